@@ -103,8 +103,8 @@ def _check_tree(rec, base, seed, out, expected_override=None, skip_config_of=Non
                     if case["exists"] and case["phys"] != q and tuple(case["phys"]) in by_q:
                         pc = by_q[tuple(case["phys"])]
                         key = {"get_project": "gp", "get_project(search=False)": "gpx", "Project": "open", "get_job": "job"}[name]
-                        if du.same(got, du.want(base, pc[key], name == "get_job")):
-                            kind = "drift-CAL_Lexical"
+                        if du.same(got, du.want(base, pc[key], name == "get_job")) and not (name == "get_job" and case.get("det")):
+                            kind = "drift-CAL_Lexical"   # the text does not fix lexical vs physical here
                     report(kind, name, spelling, case, got, exp)
                     bad_abs.add(name)
                     break
@@ -288,9 +288,14 @@ def _rand_tree(rnd):
         if not 3 <= len(nodes) <= 40:
             continue
         targets = [n["p"] for n in nodes if n["k"] not in ("link", "ws")]
+        jobdirs = [n["p"] for n in nodes if n["k"] in ("job", "jobproj")]
         for n in nodes:
             if n["k"] == "link":
-                n["tgt"] = list(du.NONE) if rnd.random() < 0.15 else list(rnd.choice(targets))
+                other = [t for t in jobdirs if t[:-2] != n["p"][:-2]]   # job directories of other workspaces
+                if n["p"][-1] in du.SP_OF and other and rnd.random() < 0.6:
+                    n["tgt"] = list(rnd.choice(other))
+                else:
+                    n["tgt"] = list(du.NONE) if rnd.random() < 0.15 else list(rnd.choice(targets))
         return nodes
 
 
@@ -375,7 +380,7 @@ def _code_to_spec(ctx, workers, n):
                     qclass = "missing-path" if not e["exists"] else "via-symlink" if e["phys"] != o["q"] else "plain"
                     conv = lambda a: ("LookupError",) if not a["ok"] and not a["path"] else ("error", a["path"][0][8:-1], "") if not a["ok"] else \
                         ("job", os.path.join("$ROOT", *a["path"]), a["id"], os.path.join("$ROOT", *a["dir"])) if a["id"] else ("project", os.path.join("$ROOT", *a["path"]))
-                    findings.append({"kind": "violation" if qclass != "via-symlink" else "drift-CAL_Lexical?", "fn": fn, "spelling": "abs", "q": o["q"], "qclass": qclass,
+                    findings.append({"kind": "violation" if qclass != "via-symlink" or (key == "job" and e["det"]) else "drift-CAL_Lexical?", "fn": fn, "spelling": "abs", "q": o["q"], "qclass": qclass,
                                      "got": list(conv(o[key])), "exp": list(conv(e[key])), "nodes": rec["nodes"], "seed": 0, "extra": None, "shape": "", "use_api": False})
     ctx.cov["code_to_spec"] = {"random_trees": len(recs), "observations_judged_by_tlc": nobs * 4, "rejected": len(findings)}
     ctx.count(n=nobs * 4, traces=nobs)
